@@ -174,6 +174,25 @@ class Context:
             return vm._to_string(value)
         return to_string(value)
 
+    def _is_callable(self, value: JSValue) -> bool:
+        return isinstance(value, JSFunction) or (
+            callable(value) and not isinstance(value, type)
+        )
+
+    def _call_js(self, fn: JSValue, this_val: JSValue, args: list) -> JSValue:
+        """Call a script (or native) function from a built-in, with a receiver."""
+        if isinstance(fn, JSFunction):
+            return self._current_vm._call_callback(fn, list(args), this_val)
+        result = fn(*args)
+        return UNDEFINED if result is None else result
+
+    def _js_get(self, obj: JSValue, key: str) -> JSValue:
+        """Property read as scripts see it (prototype chain, getters)."""
+        vm = self._current_vm
+        if vm is not None:
+            return vm._get_property(obj, key)
+        return obj.get(key) if isinstance(obj, JSObject) else UNDEFINED
+
     def _js_to_number(self, value: JSValue):
         """ToNumber as scripts see it (see _js_to_string)."""
         vm = self._current_vm
@@ -884,11 +903,34 @@ class Context:
                 py_value = json.loads(
                     text, parse_constant=reject_constant, parse_int=parse_integer
                 )
-                return ctx._to_js(py_value)
             except json.JSONDecodeError as e:
                 from .errors import JSSyntaxError
 
                 raise JSSyntaxError(f"JSON.parse: {e}")
+            result = ctx._to_js(py_value)
+            reviver = args[1] if len(args) > 1 else UNDEFINED
+            if not ctx._is_callable(reviver) or ctx._current_vm is None:
+                return result
+
+            def internalize(holder, key):
+                # InternalizeJSONProperty: children first, then the value itself
+                val = holder.get_index(int(key)) if isinstance(holder, JSArray) else holder.get(key)
+                if isinstance(val, JSArray):
+                    for i in range(val.length):
+                        new_val = internalize(val, str(i))
+                        val._elements[i] = new_val
+                elif isinstance(val, JSObject):
+                    for k in list(val.keys()):
+                        new_val = internalize(val, k)
+                        if new_val is UNDEFINED:
+                            val.delete(k)
+                        else:
+                            val.set(k, new_val)
+                return ctx._call_js(reviver, holder, [key, val])
+
+            root = JSObject()
+            root.set("", result)
+            return internalize(root, "")
 
         def stringify_fn(*args):
             value = args[0] if args else UNDEFINED
@@ -925,6 +967,30 @@ class Context:
                     + brackets[1]
                 )
 
+            # The second argument: a function that may replace every value, or
+            # an array listing the property names to keep
+            replacer = args[1] if len(args) > 1 else UNDEFINED
+            replacer_fn = replacer if ctx._is_callable(replacer) else None
+            allowed_keys = None
+            if replacer_fn is None and isinstance(replacer, JSArray):
+                allowed_keys = []
+                for item in replacer._elements:
+                    if isinstance(item, bool) or not isinstance(item, (str, int, float)):
+                        continue
+                    name = item if isinstance(item, str) else to_string(item)
+                    if name not in allowed_keys:
+                        allowed_keys.append(name)
+
+            def prepare(holder, key, v):
+                # SerializeJSONProperty steps 2-3: toJSON, then the replacer
+                if isinstance(v, JSObject) and ctx._current_vm is not None:
+                    to_json = ctx._js_get(v, "toJSON")
+                    if ctx._is_callable(to_json):
+                        v = ctx._call_js(to_json, v, [key])
+                if replacer_fn is not None:
+                    v = ctx._call_js(replacer_fn, holder, [key, v])
+                return v
+
             # Objects and arrays being serialised right now (the path from the root)
             open_holders = []
 
@@ -952,19 +1018,28 @@ class Context:
                 try:
                     if isinstance(v, JSArray):
                         # For arrays, undefined becomes null
-                        items = [serialize(e, indent + gap) or "null" for e in v._elements]
+                        items = [
+                            serialize(prepare(v, str(i), e), indent + gap) or "null"
+                            for i, e in enumerate(list(v._elements))
+                        ]
                         return layout("[]", items, indent)
                     # For objects, skip undefined values
                     members = []
-                    for k, val in v._properties.items():
-                        text = serialize(val, indent + gap)
+                    keys = list(v.keys()) if allowed_keys is None else [
+                        k for k in allowed_keys if v.has(k) or k in v._getters
+                    ]
+                    for k in keys:
+                        val = v._properties[k] if k in v._properties else ctx._js_get(v, k)
+                        text = serialize(prepare(v, k, val), indent + gap)
                         if text is not None:
                             members.append(quote(k) + (": " if gap else ":") + text)
                     return layout("{}", members, indent)
                 finally:
                     open_holders.pop()
 
-            text = serialize(value)
+            wrapper = JSObject()
+            wrapper.set("", value)
+            text = serialize(prepare(wrapper, "", value))
             return UNDEFINED if text is None else text
 
         json_obj.set("parse", parse_fn)
